@@ -114,9 +114,11 @@ def run_order_gfa(
         # Initialize files
         # f_gfa = open(outdir+'/'+gfa_filename.split("/")[-1][:-4]+'-'+chromosome+'.gfa', 'w')
 
-        scaffold_nodes, inside_nodes, node_order, bo, bubble_count = decompose_and_order(
+        scaffold_nodes, inside_nodes, node_order, new_bo, bubble_count = decompose_and_order(
             graph, component_nodes, chromosome, bo
         )
+        if new_bo is not None:  # a skipped chromosome must not disturb the running BO
+            bo = new_bo
 
         # skip a chromosome if something went wrong
         if scaffold_nodes:
